@@ -368,6 +368,14 @@ func init() {
 			return st.branch(st.callSync(th, guard, nil).(*Term))
 		})
 	}
+	// vrtBeyondHorizon: every timer that exists now lies beyond the horizon of the scenario and
+	// never fires symbolically (natively it is a generous deadline that only a lost wake-up reaches)
+	vrtPrims["vrtBeyondHorizon"] = simple(func(st *State, args []Value) Value {
+		for _, t := range st.timers {
+			t.never = true
+		}
+		return nil
+	})
 	vrtPrims["vrtEnvState"] = simple(func(st *State, args []Value) Value {
 		if p, ok := args[0].(IfaceV); ok {
 			if pp, ok := p.V.(Ptr); ok && pp.Obj != nil {
